@@ -3,10 +3,12 @@
 # relocatable object whose global symbols carry the prefix O0_, so that it can be linked next to the -O1 copy.
 # The library sources given after the examples directory are compiled the same way and go into the same object, so that the -O0
 # programs run on a -O0 library (the repository's default build type has no optimisation at all).
+# The prefix is O0_ unless the environment variable COPY_PREFIX names another one (G_ for the copy compiled by gcc).
 # usage: build_o0.sh <workdir> <output.o> <cc> "<cflags>" <examples dir> "<library cflags>" <library sources...>
 set -e
 work=$1; out=$2; cc=$3; cflags=$4; ex=$5; libflags=$6; shift 6 2>/dev/null || shift $#
 libsrcs="$@"
+pfx=${COPY_PREFIX:-O0_}
 mkdir -p "$work"
 list="acf-can-talker:acf-can/acf-can-talker.c:acf_can_talker_main
 acf-can-listener:acf-can/acf-can-listener.c:acf_can_listener_main
@@ -28,14 +30,14 @@ objs=""
 for l in $list; do
   n=${l%%:*}; rest=${l#*:}; src=${rest%%:*}; m=${rest#*:}
   $cc $cflags -Dmain=$m -c "$ex/$src" -o "$work/$n.tmp.o"
-  nm -g --defined-only "$work/$n.tmp.o" | awk '$2 ~ /^[TDBRC]$/ && $3 !~ /^__/ {print $3" O0_"$3}' >> "$work/map"
+  nm -g --defined-only "$work/$n.tmp.o" | awk '$2 ~ /^[TDBRC]$/ && $3 !~ /^__/ {print $3" "p$3}' p=$pfx >> "$work/map"
   objs="$objs $n"
 done
 k=0
 for src in $libsrcs; do
   k=$((k+1)); n=lib$k
   $cc $cflags $libflags -c "$src" -o "$work/$n.tmp.o"
-  nm -g --defined-only "$work/$n.tmp.o" | awk '$2 ~ /^[TDBRC]$/ && $3 !~ /^__/ {print $3" O0_"$3}' >> "$work/map"
+  nm -g --defined-only "$work/$n.tmp.o" | awk '$2 ~ /^[TDBRC]$/ && $3 !~ /^__/ {print $3" "p$3}' p=$pfx >> "$work/map"
   objs="$objs $n"
 done
 sort -u "$work/map" > "$work/map.u"
